@@ -455,8 +455,14 @@ func checkC05History(c *Case, st *Stats) *Failure {
 				}
 			case out.Class == ClCycle:
 				l["invoke-cycle-elsewhere"] = true
-				if !m.MaxCyclic(m.AllCtors()) {
-					setFail(&Failure{CSpuriousCycle, fmt.Sprintf("op %d (%s): Invoke reports a cycle although the registered graph is acyclic under the most permissive reading: %v", i, op.Short(), out.Err)})
+				var vis []*MFn
+				for _, cc := range m.AllCtors() {
+					if m.IsAnc(cc.Home, fn.View) {
+						vis = append(vis, cc)
+					}
+				}
+				if !m.MaxCyclic(vis) {
+					setFail(&Failure{CSpuriousCycle, fmt.Sprintf("op %d (%s): Invoke reports a cycle although the constructors visible from the invoking scope form an acyclic graph under the most permissive reading: %v", i, op.Short(), out.Err)})
 				}
 			}
 			// adopt successful executions
